@@ -86,6 +86,7 @@ theorem heldPc_wYield : heldPc (some .wYield) = [] := rfl
 theorem heldPc_wResched : heldPc (some .wResched) = [] := rfl
 theorem heldPc_rWait : heldPc (some .rWait) = [] := rfl
 theorem heldPc_rCount : heldPc (some .rCount) = [] := rfl
+theorem heldPc_rLoad : heldPc (some .rLoad) = [] := rfl
 
 def ids (cells : List Cell) : List Nat := cells.map (·.id)
 
@@ -163,7 +164,7 @@ theorem exec_acct (s : Shared) (t : Thread) (others : Nat) (pc : PC) (H : List N
   all_goals
     simp only [exec, finishOp]
     (try split) <;>
-      simp only [heldPc_sE0, heldPc_sE1, heldPc_sE2, heldPc_sT1, heldPc_sT2, heldPc_sPush, heldPc_wTake, heldPc_wTfp, heldPc_wSys1, heldPc_wSys2, heldPc_wDeq1, heldPc_wDeq2, heldPc_wDeq3, heldPc_wDeq4, heldPc_wRecv, heldPc_wReset, heldPc_wEmp1, heldPc_wEmp2, heldPc_wSEmp1, heldPc_wSEmp2, heldPc_wTs1, heldPc_wTs2, heldPc_wRetake, heldPc_wYield, heldPc_wResched, heldPc_rWait, heldPc_rCount, nextOp_held, nextIter_held, List.append_nil, ids_publish, hpc] at h ⊢ <;>
+      simp only [heldPc_sE0, heldPc_sE1, heldPc_sE2, heldPc_sT1, heldPc_sT2, heldPc_sPush, heldPc_wTake, heldPc_wTfp, heldPc_wSys1, heldPc_wSys2, heldPc_wDeq1, heldPc_wDeq2, heldPc_wDeq3, heldPc_wDeq4, heldPc_wRecv, heldPc_wReset, heldPc_wEmp1, heldPc_wEmp2, heldPc_wSEmp1, heldPc_wSEmp2, heldPc_wTs1, heldPc_wTs2, heldPc_wRetake, heldPc_wYield, heldPc_wResched, heldPc_rWait, heldPc_rCount, heldPc_rLoad, nextOp_held, nextIter_held, List.append_nil, ids_publish, hpc] at h ⊢ <;>
       exact h
 
 theorem step_acct (c : Cfg) (tid : Nat) (h : Acct c) : Acct (step c tid).2 := by
@@ -193,7 +194,7 @@ theorem spawn_acct (s : Shared) (progs : List (List Op)) :
   | cons p ps ih =>
     simp only [spawn]
     split
-    · obtain ⟨a, b, c, d, e⟩ := ih { s with running := false }
+    · obtain ⟨a, b, c, d, e⟩ := ih s
       exact ⟨by simp [List.flatMap_cons, held, heldPc, a], b, c, d, e⟩
     · obtain ⟨a, b, c, d, e⟩ := ih s
       exact ⟨by simp [List.flatMap_cons, held, nextOp_held, a], b, c, d, e⟩
@@ -223,19 +224,22 @@ theorem C02_no_duplicate (budget : Nat) (progs : List (List Op)) (sched : List N
 
 /-! ### the proviso: without a restart thread the actor stays running and nothing is dropped -/
 
-def noRestart (c : Cfg) : Prop := ∀ t ∈ c.threads, t.pc ≠ some .rWait ∧ t.pc ≠ some .rCount
+def notRestartPc (p : Option PC) : Prop := p ≠ some .rLoad ∧ p ≠ some .rWait ∧ p ≠ some .rCount
+
+def noRestart (c : Cfg) : Prop := ∀ t ∈ c.threads, notRestartPc t.pc
 
 def Live (c : Cfg) : Prop := noRestart c ∧ c.sh.running = true ∧ c.sh.dropped = []
 
+theorem nextOp_notRestart (s : Shared) (p : List Op) (r : List String) : notRestartPc (nextOp s p r).pc := by
+  rcases nextOp_pc s p r with h | ⟨m, h⟩ | h <;> simp [h, notRestartPc]
+
 theorem exec_live (s : Shared) (t : Thread) (others : Nat) (pc : PC) (hpc : t.pc = some pc)
-    (h1 : pc ≠ .rWait ∧ pc ≠ .rCount) (hr : s.running = true) (hd : s.dropped = []) :
-    ((exec s t others pc).2.pc ≠ some .rWait ∧ (exec s t others pc).2.pc ≠ some .rCount)
+    (h1 : notRestartPc (some pc)) (hr : s.running = true) (hd : s.dropped = []) :
+    notRestartPc (exec s t others pc).2.pc
     ∧ (exec s t others pc).1.running = true ∧ (exec s t others pc).1.dropped = [] := by
-  have hn : ∀ (s : Shared) (p : List Op) (r : List String), (nextOp s p r).pc ≠ some .rWait ∧ (nextOp s p r).pc ≠ some .rCount := by
-    intro s p r
-    rcases nextOp_pc s p r with h | ⟨m, h⟩ | h <;> simp [h]
+  have hn := nextOp_notRestart
   cases pc <;> simp only [exec, finishOp] <;> (try split) <;>
-    simp_all [nextIter] <;> (try split) <;> simp_all
+    simp_all [nextIter, notRestartPc] <;> (try split) <;> simp_all
 
 theorem step_live (c : Cfg) (tid : Nat) (h : Live c) : Live (step c tid).2 := by
   unfold step
@@ -250,8 +254,7 @@ theorem step_live (c : Cfg) (tid : Nat) (h : Live c) : Live (step c tid).2 := by
       obtain ⟨h1, h2, h3⟩ := h
       have ht1 := h1 t hmem
       rw [hpc] at ht1
-      have g := exec_live c.sh t (sumBy inRecv c.threads - inRecv t) pc hpc
-        ⟨by simpa using ht1.1, by simpa using ht1.2⟩ h2 h3
+      have g := exec_live c.sh t (sumBy inRecv c.threads - inRecv t) pc hpc ht1 h2 h3
       refine ⟨?_, g.2.1, g.2.2⟩
       intro t' ht'
       rcases List.mem_or_eq_of_mem_set ht' with hm | rfl
@@ -259,7 +262,7 @@ theorem step_live (c : Cfg) (tid : Nat) (h : Live c) : Live (step c tid).2 := by
       · exact g.1
 
 theorem spawn_live (s : Shared) (progs : List (List Op)) (h : ∀ p ∈ progs, p.head? ≠ some .restart) :
-    (∀ t ∈ (spawn s progs).2, t.pc ≠ some .rWait ∧ t.pc ≠ some .rCount) ∧ (spawn s progs).1.running = s.running := by
+    (∀ t ∈ (spawn s progs).2, notRestartPc t.pc) ∧ (spawn s progs).1.running = s.running := by
   induction progs generalizing s with
   | nil => simp [spawn]
   | cons p ps ih =>
@@ -270,7 +273,7 @@ theorem spawn_live (s : Shared) (progs : List (List Op)) (h : ∀ p ∈ progs, p
       refine ⟨?_, b⟩
       intro t ht
       rcases List.mem_cons.mp ht with rfl | ht
-      · rcases nextOp_pc s p [] with h | ⟨m, h⟩ | h <;> simp [h]
+      · exact nextOp_notRestart s p []
       · exact a t ht
 
 /-- Exactly-once, part 2 (the property's proviso made explicit): if no thread restarts the actor, it
@@ -336,6 +339,7 @@ theorem inflightPc_wYield : inflightPc (some .wYield) = 0 := rfl
 theorem inflightPc_wResched : inflightPc (some .wResched) = 0 := rfl
 theorem inflightPc_rWait : inflightPc (some .rWait) = 0 := rfl
 theorem inflightPc_rCount : inflightPc (some .rCount) = 0 := rfl
+theorem inflightPc_rLoad : inflightPc (some .rLoad) = 0 := rfl
 theorem reclaimPc_sE0 (m : Nat) : reclaimPc (some (.sE0 m)) = 0 := rfl
 theorem reclaimPc_sE1 (m : Nat) : reclaimPc (some (.sE1 m)) = 0 := rfl
 theorem reclaimPc_sE2 (m : Nat) : reclaimPc (some (.sE2 m)) = 0 := rfl
@@ -363,6 +367,7 @@ theorem reclaimPc_wYield : reclaimPc (some .wYield) = 0 := rfl
 theorem reclaimPc_wResched : reclaimPc (some .wResched) = 0 := rfl
 theorem reclaimPc_rWait : reclaimPc (some .rWait) = 0 := rfl
 theorem reclaimPc_rCount : reclaimPc (some .rCount) = 0 := rfl
+theorem reclaimPc_rLoad : reclaimPc (some .rLoad) = 0 := rfl
 theorem e2Pc_sE0 (m : Nat) : e2Pc (some (.sE0 m)) = [] := rfl
 theorem e2Pc_sE1 (m : Nat) : e2Pc (some (.sE1 m)) = [] := rfl
 theorem e2Pc_sE2 (m : Nat) : e2Pc (some (.sE2 m)) = [m] := rfl
@@ -390,6 +395,7 @@ theorem e2Pc_wYield : e2Pc (some .wYield) = [] := rfl
 theorem e2Pc_wResched : e2Pc (some .wResched) = [] := rfl
 theorem e2Pc_rWait : e2Pc (some .rWait) = [] := rfl
 theorem e2Pc_rCount : e2Pc (some .rCount) = [] := rfl
+theorem e2Pc_rLoad : e2Pc (some .rLoad) = [] := rfl
 
 def unready (cells : List Cell) : List Nat := (cells.filter (fun c => !c.ready)).map (·.id)
 
@@ -478,7 +484,7 @@ theorem exec_K (s : Shared) (t : Thread) (others : Nat) (pc : PC) (E : List Nat)
   all_goals
     simp only [exec, finishOp]
     (try split) <;>
-      simp only [e2Pc_sE0, e2Pc_sE1, e2Pc_sE2, e2Pc_sT1, e2Pc_sT2, e2Pc_sPush, e2Pc_wTake, e2Pc_wTfp, e2Pc_wSys1, e2Pc_wSys2, e2Pc_wDeq1, e2Pc_wDeq2, e2Pc_wDeq3, e2Pc_wDeq4, e2Pc_wRecv, e2Pc_wReset, e2Pc_wEmp1, e2Pc_wEmp2, e2Pc_wSEmp1, e2Pc_wSEmp2, e2Pc_wTs1, e2Pc_wTs2, e2Pc_wRetake, e2Pc_wYield, e2Pc_wResched, e2Pc_rWait, e2Pc_rCount, nextOp_e2, nextIter_e2, List.append_nil, hpc] at h ⊢ <;>
+      simp only [e2Pc_sE0, e2Pc_sE1, e2Pc_sE2, e2Pc_sT1, e2Pc_sT2, e2Pc_sPush, e2Pc_wTake, e2Pc_wTfp, e2Pc_wSys1, e2Pc_wSys2, e2Pc_wDeq1, e2Pc_wDeq2, e2Pc_wDeq3, e2Pc_wDeq4, e2Pc_wRecv, e2Pc_wReset, e2Pc_wEmp1, e2Pc_wEmp2, e2Pc_wSEmp1, e2Pc_wSEmp2, e2Pc_wTs1, e2Pc_wTs2, e2Pc_wRetake, e2Pc_wYield, e2Pc_wResched, e2Pc_rWait, e2Pc_rCount, e2Pc_rLoad, nextOp_e2, nextIter_e2, List.append_nil, hpc] at h ⊢ <;>
       exact h
 
 /-- J, seen from the stepping thread -/
@@ -516,7 +522,7 @@ theorem exec_J (s : Shared) (t : Thread) (others : Nat) (pc : PC) (Rin Rre : Nat
     cases hs : s.sched <;>
     simp only [exec, finishOp, hs, reduceCtorEq, if_true, if_false] <;>
     (try split) <;>
-    simp only [inflightPc_sE0, inflightPc_sE1, inflightPc_sE2, inflightPc_sT1, inflightPc_sT2, inflightPc_sPush, inflightPc_wTake, inflightPc_wTfp, inflightPc_wSys1, inflightPc_wSys2, inflightPc_wDeq1, inflightPc_wDeq2, inflightPc_wDeq3, inflightPc_wDeq4, inflightPc_wRecv, inflightPc_wReset, inflightPc_wEmp1, inflightPc_wEmp2, inflightPc_wSEmp1, inflightPc_wSEmp2, inflightPc_wTs1, inflightPc_wTs2, inflightPc_wRetake, inflightPc_wYield, inflightPc_wResched, inflightPc_rWait, inflightPc_rCount, reclaimPc_sE0, reclaimPc_sE1, reclaimPc_sE2, reclaimPc_sT1, reclaimPc_sT2, reclaimPc_sPush, reclaimPc_wTake, reclaimPc_wTfp, reclaimPc_wSys1, reclaimPc_wSys2, reclaimPc_wDeq1, reclaimPc_wDeq2, reclaimPc_wDeq3, reclaimPc_wDeq4, reclaimPc_wRecv, reclaimPc_wReset, reclaimPc_wEmp1, reclaimPc_wEmp2, reclaimPc_wSEmp1, reclaimPc_wSEmp2, reclaimPc_wTs1, reclaimPc_wTs2, reclaimPc_wRetake, reclaimPc_wYield, reclaimPc_wResched, reclaimPc_rWait, reclaimPc_rCount, nextOp_inflight, nextOp_reclaim, nextIter_inflight, nextIter_reclaim,
+    simp only [inflightPc_sE0, inflightPc_sE1, inflightPc_sE2, inflightPc_sT1, inflightPc_sT2, inflightPc_sPush, inflightPc_wTake, inflightPc_wTfp, inflightPc_wSys1, inflightPc_wSys2, inflightPc_wDeq1, inflightPc_wDeq2, inflightPc_wDeq3, inflightPc_wDeq4, inflightPc_wRecv, inflightPc_wReset, inflightPc_wEmp1, inflightPc_wEmp2, inflightPc_wSEmp1, inflightPc_wSEmp2, inflightPc_wTs1, inflightPc_wTs2, inflightPc_wRetake, inflightPc_wYield, inflightPc_wResched, inflightPc_rWait, inflightPc_rCount, inflightPc_rLoad, reclaimPc_sE0, reclaimPc_sE1, reclaimPc_sE2, reclaimPc_sT1, reclaimPc_sT2, reclaimPc_sPush, reclaimPc_wTake, reclaimPc_wTfp, reclaimPc_wSys1, reclaimPc_wSys2, reclaimPc_wDeq1, reclaimPc_wDeq2, reclaimPc_wDeq3, reclaimPc_wDeq4, reclaimPc_wRecv, reclaimPc_wReset, reclaimPc_wEmp1, reclaimPc_wEmp2, reclaimPc_wSEmp1, reclaimPc_wSEmp2, reclaimPc_wTs1, reclaimPc_wTs2, reclaimPc_wRetake, reclaimPc_wYield, reclaimPc_wResched, reclaimPc_rWait, reclaimPc_rCount, reclaimPc_rLoad, nextOp_inflight, nextOp_reclaim, nextIter_inflight, nextIter_reclaim,
       hs, hpc, ne_eq, reduceCtorEq, not_true_eq_false, not_false_eq_true, false_or, true_or, Nat.add_zero,
       imp_self, implies_true] at hJ hK ⊢ <;>
     (try (intro hc; have := hJ hc; omega)) <;>
